@@ -27,6 +27,21 @@ Theorem C07_pairs_count_partial : forall y c a,
 Proof. exact n_pairs_counts_available_partial. Qed.
 Print Assumptions C07_pairs_count_partial.
 
+(* a boolean annotators matrix is given row-per-candidate in the caller's order; _validate_data
+   sorts the candidate indices and permutes the rows along: row r of A_cand is the row the caller
+   gave for the r-th smallest candidate, and the number of candidate pairs is the number of True
+   entries of the caller's matrix *)
+Theorem C07_matrix_rows_follow_candidates : forall (l : list nat) (m : list (list bool)) (r : nat),
+  NoDup l -> r < length l ->
+  exists j, j < length l /\ nth j l 0 = nth r (uniq_sort l) 0 /\ nth r (perm_rows l m) [] = nth j m [].
+Proof. exact matrix_rows_follow_candidates. Qed.
+Print Assumptions C07_matrix_rows_follow_candidates.
+
+Theorem C07_pairs_count_matrix : forall y c m,
+  (forall l, c = CIdx l -> length m = length l) -> n_pairs y c (AMat m) = count_true m.
+Proof. exact n_pairs_matrix. Qed.
+Print Assumptions C07_pairs_count_matrix.
+
 (* the per-sample annotator count loop terminates whenever the chosen samples offer enough
    pairs, reaches the batch size, never exceeds availability, never goes below the request *)
 Theorem C07_n_to_assign_terminates : forall bs nmax pref,
@@ -53,5 +68,6 @@ Print Assumptions C07_n_to_assign_diverges_refuted.
 Example C07_nonvacuous :
   let A := [[true; false]; [true; true]] in
   let t := [((1, 1), [[Some 3; None]; [Some 5; Some 9]]%Z); ((1, 0), [[Some 3; None]; [Some 5; None]]%Z)] in
-  accepts_pairs A 2 2 t = true /\ n_to_assign 3 3 [1; 2] [1; 1] = Some [1; 2].
-Proof. vm_compute. split; reflexivity. Qed.
+  accepts_pairs A 2 2 t = true /\ n_to_assign 3 3 [1; 2] [1; 1] = Some [1; 2] /\
+  ma_avail [[true; true]; [true; true]; [true; true]] (CIdx [2; 0]) (AMat [[true; false]; [false; true]]) = [[false; true]; [true; false]].
+Proof. vm_compute. repeat split; reflexivity. Qed.
